@@ -86,6 +86,21 @@ func initBig() {
 		n := uint(concInt(a[2]))
 		return setRecv(a, IntBin("*", bigOf(a[1]), IntConst(new(big.Int).Lsh(big.NewInt(1), n))))
 	}
+	intrinsics["(*math/big.Int).SetBytes"] = func(in *Interp, fn *ssa.Function, a []Value) Value {
+		b := a[1].(Slice)
+		if len(b.A) == 0 {
+			return setRecv(a, IntConst(big.NewInt(0)))
+		}
+		var cat *Term
+		for _, e := range b.A {
+			if cat == nil {
+				cat = e.(*Term)
+			} else {
+				cat = Concat(cat, e.(*Term))
+			}
+		}
+		return setRecv(a, bvToIntU(cat))
+	}
 	intrinsics["(*math/big.Int).String"] = func(in *Interp, fn *ssa.Function, a []Value) Value { return concreteStr("<big>") }
 	intrinsics["(*math/big.Int).Bytes"] = func(in *Interp, fn *ssa.Function, a []Value) Value {
 		x := bigOf(a[0])
